@@ -5,7 +5,9 @@ Import ListNotations.
 (* operation codes *)
 Inductive uop := UAdd | URAdd | USub | URSub | UMul | URMul | UDiv (python_number : bool) | URDiv | UNeg | URecip
                | UMap (fl fr : list float) (domain_ok : bool)    (* exp/log/sqrt: arrays f(left), f(right) recorded as oracle *)
-               | UPow (straddle : bool) (l r : list float).       (* P ** c : arrays left**c, right**c recorded as oracle *)
+               | UPow (tbl : list (float * float)).               (* P ** c : the values x ** c at the bounds' entries, recorded as an oracle table *)
+Fixpoint flookup (tbl : list (float * float)) (x : float) : float :=
+  match tbl with [] => PrimFloat.nan | (a, b) :: t => if PrimFloat.eqb a x then b else flookup t x end.
 Definition ucase := (uop * (list float * list float) * float * pout)%type.
 Notation mkS := (mk_staircase FN steps plo phi).
 Notation mkL := (mk_staircase_lists FN steps plo phi).
@@ -22,6 +24,6 @@ Definition ueval (o : uop) (p : pbox FN) (c : float) : res (pbox FN) :=
   | UNeg => pneg FN steps plo phi p
   | URecip => precip FN steps plo phi p
   | UMap fl fr ok => if ok then mkS fl fr else Raise ValueErr
-  | UPow straddle l r => if straddle then NotImpl else mkL (nsort FN l) (nsort FN r)
+  | UPow tbl => ppow FN steps plo phi (fun x _ => flookup tbl x) (fun _ _ => NotImpl) p c     (* the model's routing of Staircase.pow; the zero-straddling route is not modelled *)
   end.
 Definition ucheck (c : ucase) : nat := let '(o, p, x, out) := c in pcmp (ueval o p x) out.
